@@ -35,6 +35,8 @@ func main() {
 		spiceMain(os.Args[2:])
 	case "locks":
 		locksMain(os.Args[2:])
+	case "member":
+		memberMain(os.Args[2:])
 	default:
 		fatal("unknown driver %q", os.Args[1])
 	}
